@@ -321,9 +321,12 @@ def proof_leg(driver, tier):
         # transcript of the property files themselves: Print Assumptions under every theorem
         allowed = set(getattr(driver, 'ALLOWED_AXIOMS', []))
         axioms = set()
+        scratch = os.path.join(BUILD, 'scratch')
+        os.makedirs(scratch, exist_ok=True)
         for vf in driver.THEOREM_FILES:
             rc, tr = sh(['coqc', '-Q', '.', 'GV', '-w', '-notation-overridden,-deprecated',
-                         '-o', os.path.join(BUILD, 'scratch.vo'), vf], cwd=COQ, timeout=900)
+                         '-o', os.path.join(scratch, os.path.basename(vf) + 'o'), vf],
+                        cwd=COQ, timeout=900)
             names = theorem_names(vf)
             blocks = parse_assumptions(tr)
             if rc or len(blocks) < len(names):
